@@ -35,7 +35,7 @@ func genKwArg(r *rand.Rand) V {
 func genOpArg(r *rand.Rand) string {
 	return []string{"-", "c0", "c1", "c2", "c5", "c6", "c7", "c200",
 		fmt.Sprintf("u1:%s:%s", hx("~="), hx("approx")), fmt.Sprintf("u2:%s:%s", hx(""), hx("ctx")), fmt.Sprintf("u3:%s:%s", hx("=~"), hx("")),
-		fmt.Sprintf("v1:%s:%s", hx("~~"), hx("list")), fmt.Sprintf("v2:%s:%s", hx("in"), hx("list")), fmt.Sprintf("v3:%s:%s", hx(""), hx("list")), "z", "y"}[r.Intn(16)]
+		fmt.Sprintf("v1:%s:%s", hx("~~"), hx("list")), fmt.Sprintf("v2:%s:%s", hx("in"), hx("list")), fmt.Sprintf("v3:%s:%s", hx(""), hx("list")), "z", "y", "w"}[r.Intn(17)]
 }
 
 func genExArg(r *rand.Rand) V {
